@@ -33,8 +33,9 @@ LEVEL_NOTE = "trusted: harness ledger model, CWallet::IsMine, the node's mempool
 
 def runs(tier, seed):
     if tier == "thorough":
-        return [Run("wallet_bump", cases=1600, params={"ops": 20}, timeout=5400)]
-    return [Run("wallet_bump", cases=32, params={"ops": 12}, timeout=1500)]
+        # 24 000 bump attempts; ~6 CPU-s per case under ASan -> ~8 min on 16 idle cores
+        return [Run("wallet_bump", cases=1200, params={"ops": 20}, timeout=7200)]
+    return [Run("wallet_bump", cases=32, params={"ops": 12}, timeout=3600)]
 
 
 def check(rec, st):
